@@ -1399,6 +1399,10 @@ class Evaluator:
             if short == "map":
                 return ("comp", "gen", img, ((dom, ()),))
             return ("comp", "gen", b, ((dom, (self.truthy(img) if short == "filter" else t_not(self.truthy(img)),)),))
+        if short == "islice" and len(args) in (2, 3, 4):
+            # islice(xs, a, b) ranges over xs[a:b]
+            lo, hi, stp = (NONE, args[1], NONE) if len(args) == 2 else (args[1], args[2], args[3] if len(args) == 4 else NONE)
+            return ("slice", args[0], lo, hi, stp)
         if tail2 == "chain.from_iterable" and len(args) == 1:
             src = args[0]
             while src[0] == "var" and len(src) == 4:
